@@ -385,7 +385,9 @@ func platformVar(name string) markerVar {
 // valid PEP 440 version.
 func mkMarkerVar(name, value string) markerVar {
 	mv := markerVar{name: name, value: value}
-	v, err := semver.PyPI.Parse(value)
+	// White space around a version is not significant: pip strips it
+	// before it tries to read an operand as a version.
+	v, err := semver.PyPI.Parse(strings.TrimSpace(value))
 	if err == nil {
 		mv.version = v
 	}
